@@ -364,3 +364,109 @@ func TestParallelRace(t *testing.T) {
 	vk.Run(t, suite, "parallel-race", 400, genPlan, func(p Plan) (vk.Outcome, error) { return execute(p, false) })
 	suite.Crashy = false
 }
+
+// ---------------------------------------------------------------------------------------------
+// first-error storm: many quick DoContext/MapContext runs with zero latency and failing calls, real goroutines
+
+type StormPlan struct {
+	Fn     string `json:"fn"` // DoContext | MapContext
+	N      int    `json:"n"`
+	Par    int    `json:"par"`
+	Fail   []int  `json:"fail"`
+	Rounds int    `json:"rounds"`
+}
+
+func genStorm(t *rapid.T) StormPlan {
+	p := StormPlan{Fn: rapid.SampledFrom([]string{"DoContext", "MapContext"}).Draw(t, "fn"),
+		N: rapid.IntRange(8, 200).Draw(t, "n"), Par: rapid.IntRange(2, 16).Draw(t, "par"), Rounds: rapid.IntRange(50, 300).Draw(t, "rounds")}
+	for k := rapid.IntRange(1, 3).Draw(t, "nfail"); k > 0; k-- {
+		p.Fail = append(p.Fail, rapid.IntRange(0, p.N-1).Draw(t, "fail"))
+	}
+	return p
+}
+
+func runStorm(p StormPlan) (vk.Outcome, error) {
+	var out vk.Outcome
+	failing := map[int]error{}
+	for _, i := range p.Fail {
+		failing[i] = sk.NewSentinel(fmt.Sprintf("fail-%d", i))
+	}
+	in := make([]int, p.N)
+	for i := range in {
+		in[i] = i
+	}
+	for round := 0; round < p.Rounds; round++ {
+		calls := make([]atomic.Int32, p.N)
+		var beganCancelled atomic.Int32
+		f := func(ctx context.Context, i int) error {
+			calls[i].Add(1)
+			if ctx.Err() != nil {
+				beganCancelled.Add(1)
+			}
+			return failing[i]
+		}
+		var err error
+		if p.Fn == "DoContext" {
+			err = parallel.DoContext(context.Background(), p.Par, p.N, f)
+		} else {
+			_, err = parallel.MapContext(context.Background(), p.Par, in, func(ctx context.Context, i int) (int, error) { return i, f(ctx, i) })
+		}
+		if err == nil {
+			return out, vk.Violf("error-swallowed", "round %d: %s returned nil although calls %v fail", round, p.Fn, p.Fail)
+		}
+		ok := false
+		for i, e := range failing {
+			if errors.Is(err, e) && calls[i].Load() > 0 {
+				ok = true
+			}
+		}
+		if !ok {
+			return out, vk.Violf("wrong-error", "round %d: %s returned %v: not an error one of the calls returned (the caller's context is live)", round, p.Fn, err)
+		}
+		for i := range calls {
+			if calls[i].Load() > 1 {
+				return out, vk.Violf("call-discipline", "round %d: index %d called %d times", round, i, calls[i].Load())
+			}
+		}
+		if bc := int(beganCancelled.Load()); bc > p.Par-1 {
+			return out, vk.Violf("began-cancelled", "round %d: %d calls began with an already-cancelled context (parallelism %d)", round, bc, p.Par)
+		}
+	}
+	out.NonTrivial = p.N > p.Par
+	out.Execs = p.Rounds
+	return out, nil
+}
+
+func TestFirstErrorStorm(t *testing.T) {
+	vk.Run(t, suite, "first-error-storm", 300, genStorm, runStorm)
+}
+
+// ---------------------------------------------------------------------------------------------
+// parallelism <= 0 means "GOMAXPROCS" - the value in force when the call is made
+
+type GmpPlan struct {
+	Fn  string `json:"fn"`
+	G   int    `json:"gomaxprocs"`
+	Par int    `json:"par"` // <= 0
+	N   int    `json:"n"`
+}
+
+func genGmp(t *rapid.T) GmpPlan {
+	return GmpPlan{Fn: rapid.SampledFrom([]string{"Do", "DoContext", "Map", "MapContext"}).Draw(t, "fn"),
+		G: rapid.SampledFrom([]int{1, 2, 3, 5, 8}).Draw(t, "g"), Par: rapid.SampledFrom([]int{0, -1, -7}).Draw(t, "par"),
+		N: rapid.SampledFrom([]int{1, 4, 40, 100}).Draw(t, "n")}
+}
+
+func runGmp(p GmpPlan) (vk.Outcome, error) {
+	old := runtime.GOMAXPROCS(p.G)
+	defer runtime.GOMAXPROCS(old)
+	out, err := runBubble(Plan{Fn: p.Fn, N: p.N, Par: p.Par, Lat: "inc", Ctx: "live"})
+	out.NonTrivial = p.N > p.G && p.G < old
+	out.Labels = []string{fmt.Sprintf("gomaxprocs=%d", p.G)}
+	return out, err
+}
+
+func TestGomaxprocs(t *testing.T) {
+	theT = t
+	vk.Run(t, suite, "gomaxprocs", 150, genGmp, runGmp)
+}
